@@ -52,7 +52,7 @@ type rowC struct {
 }
 
 type recOp struct {
-	G     int    `json:"g"`     // goroutine (0 in sequential mode)
+	G     int    `json:"g"` // goroutine (0 in sequential mode)
 	Flush bool   `json:"flush,omitempty"`
 	Table int    `json:"table,omitempty"`
 	Seed  uint64 `json:"seed,omitempty"`
@@ -168,8 +168,8 @@ func execC35(c recCase, env *kit.Env) kit.Outcome {
 			closeErr = rec.Close()
 		}()
 	} else {
-		rng := kit.NewRand(c.SchedSeed)
-		s := &sched.Sched{Choose: sched.ListChooser(c.Decisions, rng.Intn), MaxSteps: 60000}
+		s := &sched.Sched{MaxSteps: 60000}
+		s.Choose = sched.ListChooser(c.Decisions, sched.MixedChooser(c.SchedSeed, s))
 
 		if c.Decisions != nil {
 			s.Choose = sched.ListChooser(c.Decisions, nil)
